@@ -3,6 +3,9 @@
 // Contracts for the deductive verification in /verif (comment-only; compiled code is unaffected).
 package standard
 
+// every collaborator the constructor checks for is present (object invariant: proved for the value the constructor returns)
+//@ spec wiredLister(s *Service) bool = s != nil && s.checker != nil && s.fetcher != nil && s.ruler != nil
+
 // C18: the listing is exactly the accounts of the requested wallets that match the requested expression, provide a
 // public key and pass the permission check.
 
@@ -16,7 +19,7 @@ package standard
 
 //@ func (*Service).checkAccess
 //@ reveal okey
-//@ requires s != nil
+//@ requires wiredLister(s)
 //@ modifies checkedset, deniedset
 //@ ensures [verdict] result == core.ResultSucceeded || result == core.ResultDenied
 //@ ensures [ok] result == core.ResultSucceeded ==> credentials != nil && (credentials.Client + "|" + accountName + "|" + action) in checkedset
@@ -26,7 +29,7 @@ package standard
 //@ ensures [denied-key] result != core.ResultSucceeded && credentials != nil ==> (forall w string, a string :: accountName == w + "/" + a ==> okey(credentials.Client, w, a, action) in deniedset)
 
 //@ func (*Service).ListAccounts
-//@ requires s != nil
+//@ requires wiredLister(s)
 //@ requires [unlocked] !prelocked && (forall k [48]byte :: !held[k])
 //@ modifies checkedset, deniedset, tokroot, db, held, prelocked
 //@ ensures [released] !prelocked && (forall k [48]byte :: !held[k])
